@@ -170,9 +170,11 @@ func (p *Pool) try(rq workerReq) (rec map[string]any, died bool, why string, err
 }
 
 func headline(stderr string) string {
-	for _, l := range strings.Split(stderr, "\n") {
-		if strings.HasPrefix(l, "fatal error:") || strings.HasPrefix(l, "panic:") || strings.HasPrefix(l, "runtime:") {
-			return l
+	for _, pre := range []string{"fatal error:", "panic:", "runtime:"} {
+		for _, l := range strings.Split(stderr, "\n") {
+			if strings.HasPrefix(l, pre) {
+				return l
+			}
 		}
 	}
 	if len(stderr) > 200 {
